@@ -327,7 +327,9 @@ fn eat_location_item(parser: &mut Parser, recovery: TokenSet) -> bool {
     }
 
     parser.in_node(AstKind::LocationSpecItemNode, |parser| {
-        parser.eat_tag();
+        // this always advances: if the token isn't a valid tag we report that
+        // and skip it.
+        parser.expect_tag(recovery);
         parser.expect_recover(Kind::Eq, recovery.add(Kind::Comma));
         if !expect_axis_location(parser) {
             parser.err_recover(
@@ -503,6 +505,17 @@ mod tests {
             expect_metric(parser, TokenSet::EMPTY);
         });
         assert!(errstr.contains("expected variation location"), "{errstr}");
+    }
+
+    // 'wght2' looks like a tag but isn't one; if it was also in the recovery
+    // set we used to loop forever without advancing.
+    #[test]
+    fn invalid_tag_in_location_spec_terminates() {
+        let fea = "(wght2";
+        let (_out, _err, errstr) = debug_parse_output(fea, |parser| {
+            expect_metric(parser, TokenSet::IDENT_LIKE);
+        });
+        assert!(errstr.contains("invalid tag"), "{errstr}");
     }
 
     // https://github.com/googlefonts/fontc/issues/948
